@@ -41,18 +41,22 @@ ID = "C19"
 LEVEL = "fault_enumeration"
 RULE = ("histories of runs of the real output pipeline in a scratch directory: run 0 on an "
         "empty directory, then steps = (keep/change the data of each plot) x (keep/change "
-        "the template) x (delete any subset of the csv/tex/pdf/png files). 1 plot: ALL "
-        "histories of 3 runs (quick) / 4 runs (thorough) with default settings, all "
-        "histories of 2 (quick) / 3 (thorough) runs for each setting (Write "
-        "existing_unchanged / overwrite / two Write instances, LaTeXToPDF overwrite, "
-        "PDFToPNG overwrite, dirname, reused pipeline objects); 2 plots grouped by "
-        "GroupBy+group_plots or MapGroup: all 2-run histories (quick), sampled 3-run "
-        "(thorough); 2-3 ungrouped plots: seeded samples. One case = one prefix of steps "
-        "plus a fan of alternatives for the last step (disk snapshot restored between "
-        "alternatives). MakeFilename: all chains of <=3 elements from a 14-element "
-        "vocabulary x 9 contexts. Non-trivial: the case executed >=2 pipeline runs, the "
-        "audit log saw a write and a stub converter logged an invocation (or: a "
-        "MakeFilename chain changed the context)")
+        "the template) x (delete any subset of the csv/tex/pdf/png files). 1 plot, default "
+        "settings: ALL histories of 3 runs (64x64 step pairs) in both tiers, thorough adds "
+        "the 4-run histories whose first step is one of 16 representatives (16x64x64); all "
+        "histories of 2 (quick) / 3 (thorough) runs for each of 11 settings (Write "
+        "existing_unchanged / overwrite / two differently configured Write instances, "
+        "LaTeXToPDF overwrite, PDFToPNG overwrite, dirname, reused pipeline objects, "
+        "Write's default file name, bystander values + verbose, default pdflatex command); "
+        "2 plots grouped by GroupBy+group_plots or MapGroup: all 2-run histories, seeded "
+        "samples of 3-run histories and of 3-plot groups; 2-3 ungrouped plots: seeded "
+        "samples (up to 4 runs in thorough); LaTeXToPDF+PDFToPNG on the user's own tex "
+        "files (mtime comparison): all 2-run (quick) / 3-run (thorough) histories of 2 "
+        "files. One case = one prefix of steps plus a fan of alternatives for the last "
+        "step (disk snapshot restored between alternatives). MakeFilename: all chains of "
+        "<=3 elements from a 14-element vocabulary x 9 contexts. Non-trivial: the case "
+        "executed >=2 pipeline runs, the audit log saw a write and a stub converter logged "
+        "an invocation (or: a MakeFilename chain changed the context)")
 ASSUMPTIONS = [
     "converters are the stub scripts of rv/props/_out_stubs.py (deterministic digests); real "
     "pdflatex/pdftoppm behaviour (aux files, failures, timing) is not exercised",
@@ -92,8 +96,8 @@ MUST_COUNT = ["pipeline_runs", "audit_events", "audit_write_opens", "stub_invoca
               "regeneration_duties_checked", "mkfn_chains"]
 MIN_NONTRIVIAL = {"quick": 150, "thorough": 3000}
 EXHAUSTIVE = {"quick": False, "thorough": False}
-LEVEL_TEXT = ("Enumeration of fault/change histories: every history of 3 runs (quick) or 4 runs "
-              "(thorough) of the single-plot pipeline over {keep,change data} x {keep,change "
+LEVEL_TEXT = ("Enumeration of fault/change histories: every history of 3 runs (thorough: plus "
+              "16x64x64 histories of 4 runs) of the single-plot pipeline over {keep,change data} x {keep,change "
               "template} x all 16 deletion subsets per step is executed on the real elements "
               "with stub converters, and all shorter histories for every Write/LaTeXToPDF/"
               "PDFToPNG setting and for grouped plots; after each run the disk, the audit log, "
@@ -188,10 +192,16 @@ def cases(tier, seed):
             yield {"k": "hist", "pipe": "single", "n": 1, "set": DEFAULT_SET,
                    "prefix": [s1], "fan": "all"}
     else:
-        for s1 in one:
+        # 4 runs: first step from 16 representatives (4 change patterns x 4 deletion
+        # patterns), second and third step from all 64
+        first16 = [s for s in one if s["del"] in ([], ["csv0"], ["tex0"], ["pdf0", "png0"])]
+        for s1 in first16:
             for s2 in one:
                 yield {"k": "hist", "pipe": "single", "n": 1, "set": DEFAULT_SET,
                        "prefix": [s1, s2], "fan": "all"}
+        for s1 in one:
+            yield {"k": "hist", "pipe": "single", "n": 1, "set": DEFAULT_SET,
+                   "prefix": [s1], "fan": "all"}
     # (b) every other setting: all histories of 2 (quick) / 3 (thorough) runs
     for name, st in SETTINGS:
         if not thorough:
@@ -567,18 +577,7 @@ class World(object):
         shutil.rmtree(self.root, ignore_errors=True)
 
 
-def is_write_event(ev):
-    from rv.monitors import audit
-    if ev[0] != "open":
-        return False
-    mode = ev[2]
-    if isinstance(mode, str) and mode.startswith("flags:"):
-        try:
-            fl = int(mode[6:])
-        except ValueError:
-            return False
-        return bool(fl & (os.O_WRONLY | os.O_RDWR | os.O_CREAT | os.O_TRUNC | os.O_APPEND))
-    return audit.is_write_mode(mode)
+from rv.props._out_stubs import is_write_event  # noqa: E402
 
 
 # ------------------------------------------------------------------ the oracle
@@ -1062,10 +1061,29 @@ def run_mkfn(r, obs):
             obs.check(value[0] == 7, "makefilename-data-changed", "data part changed; " + desc)
 
 
+_REPORTED = {}          # mech -> number of violations reported by this worker process
+MAX_PER_MECH = 4        # per worker process; further repeats are counted, not listed
+
+
 def run_case(r, obs):
-    if r["k"] == "hist":
-        run_history(r, obs)
-    elif r["k"] == "mkfn":
-        run_mkfn(r, obs)
-    else:
-        raise ValueError(r["k"])
+    try:
+        if r["k"] == "hist":
+            run_history(r, obs)
+        elif r["k"] == "mkfn":
+            run_mkfn(r, obs)
+        else:
+            raise ValueError(r["k"])
+    finally:
+        # The worker keeps only the first 200 violations: one mechanism that fires in every
+        # history must not crowd out a different one.  Keep the first witness per mechanism
+        # and case, and at most MAX_PER_MECH per worker process; the rest is counted.
+        kept, seen = [], set()
+        for v in obs.violations:
+            m = v["mech"]
+            if m in seen or _REPORTED.get(m, 0) >= MAX_PER_MECH:
+                obs.count("violations_counted_not_listed")
+                continue
+            seen.add(m)
+            _REPORTED[m] = _REPORTED.get(m, 0) + 1
+            kept.append(v)
+        obs.violations[:] = kept
